@@ -116,6 +116,13 @@ def task(args):
         rec("ProductScheme3D", "weights-sum-to-measure", sum(p3.weights), ONE)
         for e in monomials(3, deg3):
             rec("ProductScheme3D", "exact/x^{}y^{}z^{}".format(*e), p3.integrate(mono_fun(e), ZERO, ONE, ZERO, ONE, ZERO, ONE), exact(e))
+        # a box with end points exactly 0 and with negative coordinates (the affine map must treat 0 as a number like any other)
+        F = type(ONE)
+        rec("ProductScheme3D", "box[1,2]x[0,1]x[-1,0]/measure",
+            p3.integrate(lambda x: 0 * x[0] + ONE, F(1), F(2), F(0), F(1), F(-1), F(0)), ONE)
+        if deg3 >= 1:
+            rec("ProductScheme3D", "box[1,2]x[0,1]x[-1,0]/exact/z", p3.integrate(lambda x: x[2], F(1), F(2), F(0), F(1), F(-1), F(0)), F(-1, 2))
+            rec("ProductScheme3D", "box[-2,-1]x[-1,0]x[3,4]/exact/y", p3.integrate(lambda x: x[1], F(-2), F(-1), F(-1), F(0), F(3), F(4)), F(-1, 2))
         # node positions of the mirrors, for every order in which the mirrors are requested from one scheme object
         # (the lazily cached mirrors must not alias each other)
         for order in itertools.permutations(("mirror_x", "mirror_y", "mirror_z")):
